@@ -92,6 +92,8 @@ func main() {
 			}
 			cases = append(cases, names.ImportedC11(r, ni)...)
 			cases = append(cases, names.PendingC11()...)
+			cases = append(cases, names.AutonameAcrossPasses()...)
+			cases = append(cases, names.ChanC11(r)...)
 		case "C12":
 			n, m := 30, 300
 			if *thorough {
